@@ -35,11 +35,11 @@ type c07Node struct {
 
 type c07Expect struct {
 	label     string
-	ran       bool   // callback expected to run
-	fails     bool   // precondition error expected (callback not run)
-	txIdx     int    // index of the logical transaction visible in the callback (-1 none)
-	launcher  bool   // this scope begins (and must end) txIdx
-	returnErr bool   // scope returns non-nil
+	ran       bool // callback expected to run
+	fails     bool // precondition error expected (callback not run)
+	txIdx     int  // index of the logical transaction visible in the callback (-1 none)
+	launcher  bool // this scope begins (and must end) txIdx
+	returnErr bool // scope returns non-nil
 }
 
 type c07Tx struct {
@@ -319,7 +319,7 @@ func c07Judge(r *vc.Run, name string, tree *c07Node, res *scopeResult, evs []*fa
 	}
 	// --- observed logical transactions: begin requests in order, xid from the TC's tables
 	type otx struct {
-		name, xid string
+		name, xid          string
 		commits, rollbacks int
 	}
 	var otxs []*otx
